@@ -33,6 +33,8 @@ package main
 // buffered (nobody needs to drain it).
 
 import (
+	"bytes"
+	"encoding/gob"
 	"fmt"
 	"io"
 	"net/rpc"
@@ -55,8 +57,8 @@ import (
 // ------------------------------------------------------------------------------------------------ case data
 
 type c17Ev struct {
-	K string `json:"k"`           // adv | dlv | drop | flush | cut | heal | iso | healall | cutl | isol
-	A int    `json:"a,omitempty"` // adv: ms; dlv/drop: index into the pending list; cut/heal/iso: node; cutl: k-th peer of the leader
+	K string `json:"k"`           // adv | dlv | drop | flush | mix | cut | heal | iso | healall | cutl | isol
+	A int    `json:"a,omitempty"` // adv: ms; dlv/drop: index into the pending list; mix: bit pattern; cut/heal/iso: node; cutl: k-th peer of the leader
 	B int    `json:"b,omitempty"` // cut/heal: second node
 }
 
@@ -71,12 +73,34 @@ type c17SimCase struct {
 
 var c17Names = []string{"a", "b", "c", "d", "e"}
 
+var c17GobFalse, _ = c17GobEnc(false)
+
 // ------------------------------------------------------------------------------------------------ transport
 
+// c17Resp is one response as it travels on the wire: the header fields and the gob encoding of the callee's reply
+// value (nil for an error response, which has no body the client looks at).
 type c17Resp struct {
-	seq   uint64
-	err   string
-	vresp ClusterVoteResponse
+	seq  uint64
+	err  string
+	body []byte
+}
+
+// c17GobEnc / c17GobDec are the wire format of net/rpc's default codec (encoding/gob). What matters to the code under
+// test: gob does not transmit zero-valued struct fields, and decoding leaves the fields that are absent on the wire
+// as they are in the destination. So the caller's reply value is not overwritten, it is decoded INTO, exactly as
+// net/rpc's gobClientCodec.ReadResponseBody does; requests are decoded into a fresh argument value as net/rpc's
+// server does. (Each message has its own encoder: the harness loses and reorders messages, a per-connection stream
+// of type descriptors would not survive that. The field rules are the same.)
+func c17GobEnc(v any) ([]byte, error) {
+	var buf bytes.Buffer
+	if err := gob.NewEncoder(&buf).Encode(v); err != nil {
+		return nil, err
+	}
+	return buf.Bytes(), nil
+}
+
+func c17GobDec(raw []byte, into any) error {
+	return gob.NewDecoder(bytes.NewReader(raw)).Decode(into)
 }
 
 type c17Codec struct {
@@ -107,10 +131,11 @@ func (c *c17Codec) ReadResponseHeader(r *rpc.Response) error {
 }
 
 func (c *c17Codec) ReadResponseBody(body any) error {
-	if p, ok := body.(*ClusterVoteResponse); ok && p != nil {
-		*p = c.cur.vresp
+	if body == nil || c.cur.body == nil {
+		// net/rpc discards the body of an error response (body == nil)
+		return nil
 	}
-	return nil
+	return c17GobDec(c.cur.body, body)
 }
 
 func (c *c17Codec) Close() error {
@@ -126,8 +151,9 @@ type c17Item struct {
 	gen            int // connection generation of the caller's link when the request was sent
 	health         bool
 	rpcSeq         uint64
-	vreq           ClusterVoteRequest
-	vresp          ClusterVoteResponse
+	vreq           ClusterVoteRequest  // the request as the callee's RPC server decodes it
+	vresp          ClusterVoteResponse // the reply the callee's handler produced (the voter's own decision)
+	wire           []byte              // gob encoding of that reply
 	hreq           ClusterHealth
 }
 
@@ -170,8 +196,9 @@ type c17Waiter struct {
 // c17Round is one execution of sendHealthChecks by one node, run in canonical peer order.
 type c17Round struct {
 	payload  ClusterHealth
-	parts    []int // peers taking part (connection up at the start of the round), ascending
-	next     int   // index into parts of the peer whose result is awaited
+	raw      []byte // gob encoding of the health check as the leader sent it
+	parts    []int  // peers taking part (connection up at the start of the round), ascending
+	next     int    // index into parts of the peer whose result is awaited
 	results  map[int]bool
 	waiters  map[int]c17Waiter
 	answered int
@@ -210,7 +237,8 @@ type c17World struct {
 	lastTerm     []int
 	votes        []map[int]int          // node -> term -> votes given (grants + own candidacy)
 	voteLog      []map[int][]string     // node -> term -> to whom
-	grantsRecv   []map[int]map[int]bool // candidate -> term -> voters whose grant reached the candidate
+	grantsRecv   []map[int]map[int]bool // candidate -> term -> voters whose grant (the voter's own reply, not what the candidate decoded) reached the candidate
+	refusedRecv  []map[int]int          // candidate -> term -> refusals that reached the candidate while it was counting
 	claims       map[int]map[int]bool   // term -> nodes that acted as leader in that term
 	candidacies  map[int]map[int]bool   // term -> nodes that started an election in that term
 	strike       []int8                 // model of the two-strike rehash rule, per node: 0 no strike, 1 one strike, 2 unknown
@@ -326,7 +354,10 @@ func (w *c17World) onRequest(c *c17Codec, method string, seq uint64, body any) {
 	a, b := c.from, c.to
 	switch method {
 	case "Cluster.Vote":
-		req := *(body.(*ClusterVoteRequest))
+		var req ClusterVoteRequest
+		if raw, err := c17GobEnc(body); err != nil || c17GobDec(raw, &req) != nil {
+			w.desync = "gob round trip of a vote request failed"
+		}
 		it := &c17Item{at: w.now(), caller: a, callee: b, lseq: w.lseq[a][b], gen: c.gen, rpcSeq: seq, vreq: req}
 		w.lseq[a][b]++
 		w.noteCandidacy(a, req.Term)
@@ -338,11 +369,14 @@ func (w *c17World) onRequest(c *c17Codec, method string, seq uint64, body any) {
 		}
 		w.insert(it)
 	case "Cluster.Health":
-		src := body.(*ClusterHealth)
-		h := ClusterHealth{Leader: src.Leader, Term: src.Term, Signature: src.Signature, Nodes: append([]string(nil), src.Nodes...)}
+		var h ClusterHealth
+		raw, err := c17GobEnc(body)
+		if err != nil || c17GobDec(raw, &h) != nil {
+			w.desync = "gob round trip of a health check failed"
+		}
 		r := w.round[a]
 		if r == nil {
-			r = &c17Round{payload: h, results: map[int]bool{}, waiters: map[int]c17Waiter{}}
+			r = &c17Round{payload: h, raw: raw, results: map[int]bool{}, waiters: map[int]c17Waiter{}}
 			for p := 0; p < w.n; p++ {
 				if p != a && w.up[a][p] {
 					r.parts = append(r.parts, p)
@@ -391,8 +425,10 @@ func (w *c17World) roundAdvance(a int) {
 			w.setHealthResult(a, p, false, false)
 			continue
 		}
-		it := &c17Item{at: w.now(), caller: a, callee: p, lseq: w.lseq[a][p], gen: w.gen[a][p], health: true, hreq: r.payload}
-		it.hreq.Nodes = append([]string(nil), r.payload.Nodes...)
+		it := &c17Item{at: w.now(), caller: a, callee: p, lseq: w.lseq[a][p], gen: w.gen[a][p], health: true}
+		if c17GobDec(r.raw, &it.hreq) != nil { // every callee decodes its own copy
+			w.desync = "gob decoding of a health check failed"
+		}
 		w.lseq[a][p]++
 		w.insert(it)
 		return
@@ -429,6 +465,8 @@ func (w *c17World) answerHealth(a, p int) {
 	resp := c17Resp{seq: wt.seq}
 	if !r.results[p] {
 		resp.err = "c17: health check failed"
+	} else {
+		resp.body = c17GobFalse // Cluster.Health leaves its reply (*bool) false
 	}
 	select {
 	case wt.codec.in <- resp:
@@ -784,6 +822,9 @@ func (w *c17World) deliver(it *c17Item) bool {
 					w.desync = "Vote returned an error: " + err.Error()
 				}
 				it.vresp = resp
+				if it.wire, err = c17GobEnc(&resp); err != nil {
+					w.desync = "gob encoding of a vote reply failed: " + err.Error()
+				}
 				if resp.Result {
 					w.noteVote(b, req.Term, req.Node)
 					w.stat["votes-granted"]++
@@ -816,7 +857,25 @@ func (w *c17World) deliver(it *c17Item) bool {
 	if it.health {
 		w.setHealthResult(it.caller, it.callee, true, true)
 	} else {
-		if w.respond(it.caller, it.callee, it.gen, c17Resp{seq: it.rpcSeq, vresp: it.vresp}) {
+		// the candidate's loop is blocked inside electLeader (or has left it): its term can be read
+		counting := (w.inElect[it.caller] || w.maybeBusy[it.caller]) && w.cl[it.caller].fo.term == it.vreq.Term
+		if w.respond(it.caller, it.callee, it.gen, c17Resp{seq: it.rpcSeq, body: it.wire}) {
+			if counting {
+				// the situations a reply buffer shared between the calls of one election would get wrong
+				switch g := len(w.grantsRecv[it.caller][it.vreq.Term]); {
+				case !it.vresp.Result && g > 0:
+					w.stat["refusal-after-grant"]++
+					if (1+g)*2 <= w.n {
+						// counting this refusal as a vote would make a leader without a majority
+						w.stat["refusal-after-minority-of-grants"]++
+					}
+				case it.vresp.Result && w.refusedRecv[it.caller][it.vreq.Term] > 0:
+					w.stat["grant-after-refusal"]++
+				}
+				if !it.vresp.Result {
+					w.refusedRecv[it.caller][it.vreq.Term]++
+				}
+			}
 			if it.vresp.Result {
 				if w.grantsRecv[it.caller][it.vreq.Term] == nil {
 					w.grantsRecv[it.caller][it.vreq.Term] = map[int]bool{}
@@ -944,15 +1003,21 @@ func (w *c17World) step(ev c17Ev) {
 		} else {
 			w.drop(it)
 		}
-	case "flush":
-		// deliver everything deliverable, oldest first, until nothing moves (bounded)
+	case "flush", "mix":
+		// deliver everything deliverable until nothing moves (bounded). flush: oldest first, so the requests of the
+		// candidate that started first (or has the lower name) all arrive before its rival's. mix: the k-th delivery
+		// takes the oldest or the newest deliverable item as bit k of the pattern says, which interleaves the vote
+		// requests of competing candidates (split votes) and lets refusals overtake grants.
 		for guard := 0; guard < 200; guard++ {
 			w.mu.Lock()
 			var it *c17Item
+			newest := ev.K == "mix" && (ev.A>>(uint(guard)%16))&1 == 1
 			for _, p := range w.pending {
 				if p.reply || w.canTake(p) {
 					it = p
-					break
+					if !newest {
+						break
+					}
 				}
 			}
 			w.mu.Unlock()
@@ -1209,6 +1274,7 @@ func c17SimWorld(cs *c17SimCase, wantTrace bool) (res c17SimResult) {
 		w.votes = append(w.votes, map[int]int{})
 		w.voteLog = append(w.voteLog, map[int][]string{})
 		w.grantsRecv = append(w.grantsRecv, map[int]map[int]bool{})
+		w.refusedRecv = append(w.refusedRecv, map[int]int{})
 	}
 
 	saveHub, saveCl := globals.hub, globals.cluster
@@ -1440,6 +1506,12 @@ func c17SimExec(t *testing.T) func(c17SimCase) kit.Outcome {
 		flag(st["ring-adopted"] > 0, "ring-adopted-on-second-strike")
 		flag(st["leader-in-minority-probes"] > 0, "minority-leader-probed-502")
 		flag(st["votes-refused"] > 0, "vote-refused")
+		if cs.N >= 4 {
+			// split votes in clusters where one grant is not yet a majority
+			flag(competing, "n>=4:two-candidates-in-one-term")
+			flag(st["refusal-after-minority-of-grants"] > 0, "n>=4:refusal-reaches-candidate-holding-a-minority-of-grants")
+			flag(st["grant-after-refusal"] > 0, "n>=4:grant-reaches-candidate-after-a-refusal")
+		}
 		flag(st["deferred-busy-target"] > 0, "delivery-deferred-busy-target")
 		flag(st["reconnects"] > 0, "reconnects")
 		flag(st["health-check-queued-at-busy-node"] > 0, "health-check-queued-at-busy-node")
@@ -1485,14 +1557,18 @@ func c17SimGen(rt *rapid.T) c17SimCase {
 func c17GenEvent(rt *rapid.T, n int) []c17Ev {
 	k := rapid.IntRange(0, 99).Draw(rt, "kind")
 	switch {
-	case k < 28:
+	case k < 22:
 		return []c17Ev{{K: "adv", A: rapid.SampledFrom([]int{3, 5, 10, 20, 30}).Draw(rt, "ms")}, {K: "flush"}}
+	case k < 28:
+		return []c17Ev{{K: "adv", A: rapid.SampledFrom([]int{3, 5, 10, 20, 30}).Draw(rt, "ms")}, {K: "mix", A: rapid.IntRange(1, 0xffff).Draw(rt, "pattern")}}
 	case k < 38:
 		return []c17Ev{{K: "adv", A: rapid.SampledFrom([]int{5, 10, 20, 40, 60, 100, 130, 200}).Draw(rt, "ms")}}
 	case k < 48:
 		return []c17Ev{{K: "adv", A: rapid.SampledFrom([]int{60, 100, 130}).Draw(rt, "ms")}, {K: "flush"}}
-	case k < 54:
+	case k < 51:
 		return []c17Ev{{K: "flush"}}
+	case k < 54:
+		return []c17Ev{{K: "mix", A: rapid.IntRange(1, 0xffff).Draw(rt, "pattern")}}
 	case k < 74:
 		idx := 0
 		if rapid.IntRange(0, 2).Draw(rt, "old") == 0 {
